@@ -61,6 +61,7 @@ type decompressor struct {
 	peekSize      int
 	eof           bool
 	ownBuf        bool // rBuf was allocated here; a *bufio.Reader handed in by the caller is never re-targeted
+	outFull       bool // the last decoding step stopped for lack of output space, not for lack of input
 }
 
 func (r *decompressor) Reset(under io.Reader, dict []byte) error {
@@ -79,6 +80,7 @@ func (r *decompressor) Reset(under io.Reader, dict []byte) error {
 
 	r.peekSize = 0
 	r.eof = false
+	r.outFull = false
 	r.err = nil
 	r.writePos = 0
 	r.readPos = 0
@@ -134,9 +136,12 @@ func (f *decompressor) step() (err error) {
 			return io.EOF
 		}
 		// Decode what the source has delivered so far; wait for it only when
-		// that is nothing beyond the bytes already held in the bit buffer.
+		// that is nothing beyond the bytes already held in the bit buffer and
+		// the decoder has really run out of input: after a stop for lack of
+		// output space the bit buffer may hold everything up to the end of the
+		// stream (or up to a flush point).
 		n := f.rBuf.Buffered()
-		if held := int(state.bitsLen / 8); n <= held {
+		if held := int(state.bitsLen / 8); n <= held && !f.outFull {
 			n = held + 1
 		}
 		state.input, err = f.rBuf.Peek(n)
@@ -166,6 +171,7 @@ func (f *decompressor) step() (err error) {
 
 	startInputSize, startBitsLen := len(f.state.input), int(f.state.bitsLen)
 	err = f.decomperss()
+	f.outFull = err == errOutputOverflow
 	f.state.rOffset(startInputSize, startBitsLen)
 
 	if isError(err) || (err == errEndInput && f.eof) {
